@@ -4,8 +4,10 @@
 DIR="${1:-/repo}"
 cd "$DIR" || exit 2
 unset RUSTFLAGS
-cargo nextest run --workspace --no-fail-fast --tool-config-file pb:/w/lib/nextest.toml --profile pb --test-threads 8 --offline >/tmp/baseline_$$.log 2>&1
 JUNIT="$DIR/target/nextest/pb/junit.xml"
+rm -f "$JUNIT"
+cargo nextest run --workspace --no-fail-fast --tool-config-file pb:/w/lib/nextest.toml --profile pb --test-threads 8 --offline >/tmp/baseline_$$.log 2>&1
+if [ ! -f "$JUNIT" ]; then echo "BUILD-OR-RUN-FAILED (no junit report; see /tmp/baseline_$$.log)"; tail -5 /tmp/baseline_$$.log; exit 3; fi
 python3 - "$JUNIT" <<'PY'
 import sys, json, xml.etree.ElementTree as ET
 base=set(json.load(open('/root/.vp/BASELINE.json'))['stable_pass'])
